@@ -1,46 +1,156 @@
 """Optional line-level pre-emption for simulated tasks.
 
 The default pre-emption points of the kernel are the intercepted pool / queue /
-process operations and the yield points inside harness callbacks.  A data race
-between two *bytecodes of typhon itself* (e.g. `self.index = build(); ...;
-self.index.query()` executed by two pool workers sharing one object) needs a
-switch where no such operation happens.  With line pre-emption enabled, every
-worker task runs under sys.settrace restricted to frames of the files under
-test; at tape-chosen line-event numbers (PCT style: a handful per run) the task
-yields.  The trace function never draws from the tape itself - the points are
-fixed when the run starts - so logging/tracing cannot perturb the schedule.
+process / file-system operations and the yield points inside harness callbacks.
+A data race between two *lines of typhon itself* (e.g. `self.index = build()`
+followed by `self.index.query()` executed by two pool workers that share one
+object) needs a switch where no such operation happens.
+
+With line pre-emption enabled the functions of the modules under test are
+instrumented with sys.monitoring LINE events (PEP 669, Python >= 3.12: events
+are enabled per code object, so code outside those modules runs at full speed).
+Whenever a *worker* task (name filter `only`) executes an instrumented line the
+global line counter advances (each task counts a line only at its first
+execution, so loops do not dominate); at the numbers in `points` - fixed from
+the tape before the run starts, typically `phase + k * stride` - the task
+yields to the scheduler.  The callback itself never draws from the tape and reads no clock.
 """
+import dis
 import sys
+import types
+
+_TOOL = 4     # a free sys.monitoring tool id (0-5)
+
+
+def _code_objects(module):
+    seen, out = set(), []
+
+    def add(code):
+        if id(code) in seen:
+            return
+        seen.add(id(code))
+        out.append(code)
+        for c in code.co_consts:
+            if isinstance(c, types.CodeType):
+                add(c)
+
+    fn = getattr(module, "__file__", None)
+    for obj in list(vars(module).values()):
+        cands = [obj]
+        if isinstance(obj, type):
+            cands = list(vars(obj).values())
+        for c in cands:
+            f = getattr(c, "__func__", c)
+            f = getattr(f, "__wrapped__", f)
+            code = getattr(f, "__code__", None)
+            if isinstance(code, types.CodeType) and code.co_filename == fn:
+                add(code)
+    return out
+
+
+_STORES = {"STORE_ATTR", "DELETE_ATTR", "STORE_GLOBAL", "DELETE_GLOBAL"}
+
+
+def _store_lines(code):
+    """Lines of `code` that assign an attribute or a module global."""
+    out = set()
+    line = None
+    for ins in dis.get_instructions(code):
+        if ins.starts_line is not None:
+            line = ins.starts_line
+        if ins.opname in _STORES and line is not None:
+            out.add(line)
+    return out
 
 
 class LinePreempt:
-    def __init__(self, sim, prefixes, points):
+    """points: numbers of the (loop-insensitive) global line counter at which
+    the running worker yields.  store_points: the same for the second counter,
+    which advances only on a line that directly follows - in the same task -
+    a line assigning an attribute or module global: the moment where another
+    task can still change shared state between a task's write and its next
+    read."""
+
+    def __init__(self, sim, modules, points, only=None, store_points=()):
         self.sim = sim
-        self.prefixes = tuple(prefixes)
-        self.points = frozenset(points)     # global line-event numbers
+        self.modules = list(modules)
+        self.points = frozenset(points)
+        self.store_points = frozenset(store_points)
+        self.store_count = 0
+        self._stores = {}
+        self._last = {}
+        self.only = only          # pre-empt only tasks whose name contains this
         self.count = 0
         self.fired = 0
+        self._codes = []
+        self._seen = {}
+        self._active = False
 
+    # the kernel calls install()/uninstall() around every task body; the
+    # instrumentation is global, so only the first/last call matters
     def install(self):
-        """Call at the start of a task's thread."""
-        sys.settrace(self._call)
+        if self._active:
+            return
+        mon = sys.monitoring
+        try:
+            mon.use_tool_id(_TOOL, "typhon-verif-linepreempt")
+        except ValueError:
+            mon.free_tool_id(_TOOL)
+            mon.use_tool_id(_TOOL, "typhon-verif-linepreempt")
+        mon.register_callback(_TOOL, mon.events.LINE, self._line)
+        self._codes = [c for m in self.modules for c in _code_objects(m)]
+        for c in self._codes:
+            mon.set_local_events(_TOOL, c, mon.events.LINE)
+            if self.store_points:
+                for ln in _store_lines(c):
+                    self._stores[(id(c), ln)] = True
+        self._active = True
 
     def uninstall(self):
-        sys.settrace(None)
+        pass          # see close(): other tasks may still be running
 
-    def _call(self, frame, event, arg):
-        if event == "call" and frame.f_code.co_filename.startswith(self.prefixes):
-            return self._line
-        return None
+    def close(self):
+        if not self._active:
+            return
+        mon = sys.monitoring
+        for c in self._codes:
+            try:
+                mon.set_local_events(_TOOL, c, 0)
+            except ValueError:
+                pass
+        mon.register_callback(_TOOL, mon.events.LINE, None)
+        mon.free_tool_id(_TOOL)
+        self._active = False
 
-    def _line(self, frame, event, arg):
-        if event == "line":
+    def _line(self, code, line):
+        sim = self.sim
+        t = sim.current
+        if t is None or t.state == "done" or sim.aborted is not None:
+            return
+        if self.only is not None and self.only not in t.name:
+            return
+        # loop-insensitive stepping: a task counts every line only the first
+        # time it executes it, otherwise a hot inner loop would swallow all
+        # pre-emption points
+        key = (id(code), line)
+        hit = False
+        if self.store_points:
+            last = self._last.get(t.name)
+            self._last[t.name] = key
+            if last in self._stores:
+                self.store_count += 1
+                hit = self.store_count in self.store_points
+        seen = self._seen.get(t.name)
+        if seen is None:
+            seen = self._seen[t.name] = set()
+        if key not in seen:
+            seen.add(key)
             self.count += 1
-            if self.count in self.points:
-                self.fired += 1
-                self.sim.yield_(f"line:{frame.f_code.co_name}:{frame.f_lineno}")
-        return self._line
+            hit = hit or self.count in self.points
+        if hit:
+            self.fired += 1
+            sim.yield_(f"line:{code.co_name}:{line}")
 
 
-def draw_points(tape, n, horizon, label="linepoint"):
-    return [1 + tape.choice(horizon, label) for _ in range(n)]
+def periodic_points(phase, stride, n):
+    return [phase + k * stride for k in range(n)]
